@@ -359,11 +359,11 @@ func c07directedBig(c *Ctx) {
 
 // seeded: the same family with every parameter drawn, over random compositions with at least one io leaf
 func c07bigSeeded(c *Ctx, r *RNG) {
-	n := 8
+	n := 5
 	sizes := []int{1030, 1100, 1100, 1200, 1500, 1500, 2048}
 	if c.Thorough {
-		n = 400
-		sizes = []int{1030, 1100, 1500, 1500, 2048, 3000, 4096, 20000}
+		n = 150
+		sizes = []int{1030, 1100, 1500, 1500, 2048, 3000, 4096}
 	}
 	for i := 0; i < n; i++ {
 		g := newC07gen(r.Fork())
